@@ -1,11 +1,191 @@
-/- Driver ops for C17. -/
+/- Driver ops for C17 (structure decorators). -/
 import Driver.Loop
+import Model.Decorators
 
-open Lean Model
+open Lean Model Model.Dec
 
 namespace Driver.C17
 
-def ops : List (String × Op) := []
+/-- number bridge so that one op body serves exact (`Rat`) and floating (`Float`) execution -/
+structure Num (α : Type) where
+  get : Json → Except String α
+  put : α → Json
+  ofNat : Nat → α
+
+def numRat : Num Rat := ⟨getRat, ratToJson, fun n => (n : Rat)⟩
+def numFloat : Num Float := ⟨getFloat, floatToJson, fun n => Float.ofNat n⟩
+
+def floatTrig : Trig Float :=
+  ⟨Float.sqrt, Float.atan2, Float.sin, Float.cos, fun d => d * (3.141592653589793 / 180.0)⟩
+
+def floatTrunc (x : Float) : Nat := x.toUInt64.toNat
+
+section generic
+variable {α : Type} [Add α] [Mul α] [OfNat α 0]
+
+/-- c₀ + c₁·y + c₂·x + c₃·y² + c₄·y·x + c₅·x² -/
+def phi (c : List α) (p : α × α) : α :=
+  let g := fun k => c.getD k 0
+  g 0 + g 1 * p.1 + g 2 * p.2 + g 3 * (p.1 * p.1) + g 4 * (p.1 * p.2) + g 5 * (p.2 * p.2)
+
+/-- non-pointwise post-processing of the value list:
+    "poly" = as is; "index": entry k multiplied by (k+1); "prefix": running sums -/
+def applyMode (N : Num α) (mode : String) (vals : List α) : List α :=
+  match mode with
+  | "index" => vals.zipIdx.map fun (v, k) => v * N.ofNat (k + 1)
+  | "prefix" => (vals.foldl (fun (acc : List α × α) v => (acc.1 ++ [acc.2 + v], acc.2 + v)) ([], 0)).1
+  | _ => vals
+
+structure Func (α : Type) where
+  mode : String
+  cy : List α
+  cx : List α
+
+def getFunc (N : Num α) (j : Json) : Except String (Func α) := do
+  let mode ← getStr (← field j "mode")
+  let cy ← getList N.get (← field j "cy")
+  let cx ← getList N.get (fieldD j "cx" (Json.arr #[]))
+  pure ⟨mode, cy, cx⟩
+
+def scalarOf (N : Num α) (fn : Func α) (pts : List (α × α)) : List α :=
+  applyMode N fn.mode (pts.map (phi fn.cy))
+
+def pairOf (N : Num α) (fn : Func α) (pts : List (α × α)) : List (α × α) :=
+  (applyMode N fn.mode (pts.map (phi fn.cy))).zip (applyMode N fn.mode (pts.map (phi fn.cx)))
+
+def getPts (N : Num α) (j : Json) : Except String (List (α × α)) :=
+  getList (fun p => do
+    let l ← getList N.get p
+    match l with
+    | [a, b] => pure (a, b)
+    | _ => throw "expected pair") j
+
+def ptsToJson (N : Num α) (l : List (α × α)) : Json :=
+  listToJson (fun (p : α × α) => Json.arr #[N.put p.1, N.put p.2]) l
+
+def getGrid (N : Num α) (j : Json) : Except String (Grid α) := do
+  match ← getStr (← field j "type") with
+  | "uniform" => pure (.uniform (← getMask (← field j "mask")) (← getPts N (← field j "pts")))
+  | "irregular" => pure (.irregular (← getPts N (← field j "pts")))
+  | "oned" =>
+    let bits ← getStr (← field j "bits")
+    pure (.oned (bits.toList.map (· == '1')) (← getList N.get (← field j "xs")))
+  | _ => throw "bad grid type"
+
+def kindStr : Kind → String
+  | .array => "array" | .grid => "grid" | .vector => "vector"
+
+def containerToJson (put : β → Json) (zero : β) : Container β → Except String Json
+  | .uniform kind m st =>
+    match Impl.viewSlim m st zero, Impl.viewNative m st zero with
+    | some (.slim s), some (.native n) =>
+      pure (obj [("type", "uniform"), ("kind", Json.str (kindStr kind)), ("mask", maskToJson m),
+        ("slim", listToJson put s), ("native", listToJson put n)])
+    | _, _ => throw "view_failed"
+  | .irregular kind v =>
+    pure (obj [("type", "irregular"), ("kind", Json.str (kindStr kind)), ("values", listToJson put v)])
+  | .oned mask v =>
+    pure (obj [("type", "oned"), ("bits", bitsToJson mask), ("slim", listToJson put v),
+      ("native", listToJson put (Impl.native1dFrom mask v zero))])
+
+def resToJson (put : β → Json) (zero : β) : Res (Container β) → Except String Json
+  | .one c => containerToJson put zero c
+  | .many cs => do pure (Json.arr (← cs.mapM (containerToJson put zero)).toArray)
+
+/-- the decorated call: returns what the function saw and the container(s) built -/
+def decorateWith (N : Num α) (proj : List α → List (α × α)) (j : Json) : Except String Json := do
+  let kind ← match ← getStr (← field j "kind") with
+    | "array" => pure Kind.array | "grid" => pure Kind.grid | "vector" => pure Kind.vector
+    | _ => throw "bad kind"
+  let g ← getGrid N (← field j "grid")
+  let funcs ← getList (getFunc N) (← field j "funcs")
+  let isList ← getBool (fieldD j "list" (Json.bool false))
+  let seen := match g with
+    | .oned _ xs => proj xs
+    | .uniform _ pts => pts
+    | .irregular pts => pts
+  let pairPut := fun (p : α × α) => Json.arr #[N.put p.1, N.put p.2]
+  let out ← match kind with
+    | .array =>
+      let f : List (α × α) → Res (List α) := fun pts =>
+        if isList then .many (funcs.map fun fn => scalarOf N fn pts)
+        else .one (scalarOf N (funcs.headD ⟨"poly", [], []⟩) pts)
+      match result kind f proj g (0 : α) with
+      | some r => resToJson N.put 0 r
+      | none => throw "constructor_raised"
+    | _ =>
+      let f : List (α × α) → Res (List (α × α)) := fun pts =>
+        if isList then .many (funcs.map fun fn => pairOf N fn pts)
+        else .one (pairOf N (funcs.headD ⟨"poly", [], []⟩) pts)
+      match result kind f proj g ((0 : α), (0 : α)) with
+      | some r => resToJson pairPut (0, 0) r
+      | none => throw "constructor_raised"
+  pure (obj [("seen", ptsToJson N seen), ("out", out)])
+
+end generic
+
+def decorate : Op := fun j => do
+  match ← getStr (fieldD j "num" (Json.str "rat")) with
+  | "float" => decorateWith numFloat (grid1dProjected floatTrig 0) j
+  | _ =>
+    -- exact execution: only meaningful when no trigonometry is involved (no Grid1D input)
+    decorateWith numRat (fun xs => xs.map fun x => ((0 : Rat), x)) j
+
+def getF4 (j : Json) : Except String (Float × Float × Float × Float) := do
+  match ← getFloats j with
+  | [a, b, c, d] => pure (a, b, c, d)
+  | _ => throw "expected 4 numbers"
+
+def getF2 (j : Json) : Except String (Float × Float) := do
+  match ← getFloats j with
+  | [a, b] => pure (a, b)
+  | _ => throw "expected 2 numbers"
+
+/-- `project_grid`: the grid handed to the function and the function's values on it -/
+def project : Op := fun j => do
+  let g ← getGrid numFloat (← field j "grid")
+  let extent ← getF4 (fieldD j "extent" (Json.arr #[Json.str "0", Json.str "0", Json.str "0", Json.str "0"]))
+  let scales ← getF2 (fieldD j "scales" (Json.arr #[Json.str "1", Json.str "1"]))
+  let centre ← getF2 (← field j "centre")
+  let angle ← getFloat (← field j "angle")
+  let fn ← getFunc numFloat (← field j "func")
+  let seen := projectGridInput floatTrig floatTrunc 90.0 extent scales centre angle g
+  let vals : Json := if fn.cx.isEmpty then floatsToJson (scalarOf numFloat fn seen)
+    else ptsToJson numFloat (pairOf numFloat fn seen)
+  pure (obj [("seen", ptsToJson numFloat seen), ("values", vals)])
+
+/-- `relocate_to_radial_minimum` under `transform`: the mock profile subtracts its centre, then the
+    decorator relocates; returns the grid handed to the function -/
+def relocateOp : Op := fun j => do
+  let pts ← getPts numFloat (← field j "pts")
+  let centre ← getF2 (← field j "centre")
+  let rmin ← getFloat (← field j "rmin")
+  let shifted := pts.map fun p => (p.1 - centre.1, p.2 - centre.2)
+  let moved := relocate Float.sqrt 0.5 rmin (radiiOf Float.sqrt) shifted
+  pure (obj [("seen", ptsToJson numFloat moved)])
+
+/-- `transform` nesting: `depth` decorated functions calling one another, outermost called with the
+    given flag; the grid is a list of points and `tr` subtracts the centre -/
+def transformOp : Op := fun j => do
+  let pts ← getPts numRat (← field j "pts")
+  let centre ← getPair (← field j "centre")
+  let depth ← getNat (← field j "depth")
+  let flag ← getBool (← field j "flag")
+  let tr : List (Rat × Rat) → List (Rat × Rat) := fun l => l.map fun p => (p.1 - centre.1, p.2 - centre.2)
+  -- innermost function reports the flag and the grid it received
+  let base : Bool → List (Rat × Rat) → (Bool × List (Rat × Rat)) := fun b g => (b, g)
+  let f := (List.range depth).foldl (fun f _ => transform tr f) base
+  let (b, g) := f flag pts
+  pure (obj [("flag", Json.bool b), ("seen", ptsToJson numRat g)])
+where
+  getPair (j : Json) : Except String (Rat × Rat) := do
+    match ← getRats j with
+    | [a, b] => pure (a, b)
+    | _ => throw "expected pair"
+
+def ops : List (String × Op) :=
+  [("c17.decorate", decorate), ("c17.project", project), ("c17.relocate", relocateOp),
+   ("c17.transform", transformOp)]
 
 end Driver.C17
 
